@@ -58,8 +58,10 @@ def imc_cases(draw):
     strided = draw(st.booleans()) and m == 2 and n >= 4 and draw(st.integers(0, 3)) == 0
     x0 = draw(st.integers(0, 100))
     dx = draw(st.sampled_from([1, 2, 5, 10, 25]))
+    # physical units of the matrix entries: A and b in units of 10^u (the solution does not depend on u when r scales with |A^T A|)
+    units = draw(st.sampled_from([0, 0, 0, 0, 0, 0, -7, -7, -6, 3]))
     return dict(n=n, k=k, style=style, A=A, b=b, rho=[rho_m, rho_e], bounds=bounds, names=list(names), order=list(order), forms=forms,
-                strided=strided, x0=x0, dx=dx)
+                strided=strided, x0=x0, dx=dx, units=units)
 
 
 def _imc_index(case):
@@ -91,8 +93,9 @@ def _imc_index(case):
 def run_imc(case, ctx, d):
     r = R()
     n = case["n"]
-    A = np.array(case["A"], dtype=float) / 2.0 ** case["k"]
-    b = np.array(case["b"], dtype=float) / 8.0
+    usc = 10.0 ** case.get("units", 0)
+    A = np.array(case["A"], dtype=float) / 2.0 ** case["k"] * usc
+    b = np.array(case["b"], dtype=float) / 8.0 * usc
     nonsym = np.linalg.norm(A - A.T) > 0.1 * max(np.linalg.norm(A), 1e-300)
     exactly_sym = np.array_equal(A, A.T)
     symmetrised = False
@@ -136,6 +139,15 @@ def run_imc(case, ctx, d):
         return r
     xs = np.linalg.solve(M, rhs)
     xs = xs + np.linalg.solve(M, rhs - M @ xs)
+    if case.get("units", 0):
+        r.cls("units:1e%d" % case["units"])
+        # the tool documents a fall-back (pseudo inverse + warning) when an eigenvalue + r is below 1e-12 in absolute terms
+        if np.min(np.abs(np.linalg.eigvalsh(Af.T @ Af) + regf)) < 4e-12:
+            r.cls("documented-pseudo-inverse-domain(not asserted)")
+            r.discard = True
+            return r
+        if np.min(np.linalg.eigvalsh(Af.T @ Af)) < 1e-12:
+            r.cls("eigenvalues-below-1e-12-with-r-above")
     r.cls("style:" + case["style"])
     r.cls("nonsymmetric" if nonsym else "symmetric-ish")
     r.cls("interactions:%d" % len(index))
